@@ -500,6 +500,20 @@ func init() {
 		}
 		return cell
 	})
+	// time.AfterFunc (context.WithTimeout/WithDeadline): the function is never run - no deadline
+	// elapses in the explored executions (cut)
+	reg("time.AfterFunc", func(w *World, t *Thread, fr *frame, fn *ssa.Function, args []Value) Value {
+		if w.timersFire() {
+			w.unsupported(fr, "time.AfterFunc under TimersFire")
+		}
+		tt := fn.Signature.Results().At(0).Type()
+		cell := new(Value)
+		*cell = w.zero(deref(tt))
+		if w.res != nil {
+			w.res.Cuts["timers never fire (time.NewTimer / time.After / time.AfterFunc)"]++
+		}
+		return cell
+	})
 	reg("time.After", func(w *World, t *Thread, fr *frame, fn *ssa.Function, args []Value) Value {
 		if w.timersFire() {
 			return w.newModelTimer(fr, args[0].(*Term))
